@@ -136,7 +136,9 @@ func RegisterSpecs(c *Ctx) {
 		}
 	}
 	two("EqC", func(env *vc.SpecEnv, t *geval.SymType, a, b vc.Val) (smt.T, error) { return c.EqC(env, t, a.T, b.T, 0) })
-	two("EqTop", func(env *vc.SpecEnv, t *geval.SymType, a, b vc.Val) (smt.T, error) { return c.EqTop(env, t, a.T, b.T, 0) })
+	two("EqTop", func(env *vc.SpecEnv, t *geval.SymType, a, b vc.Val) (smt.T, error) {
+		return c.EqTop(env, t, a.T, b.T, 0)
+	})
 }
 
 // SortOfSym: the SMT sort of values of a symbolic type (as the prelude declares it).
